@@ -1,5 +1,8 @@
 import AtsimModel.Props.C09
+import AtsimModel.Props.C05
 import AtsimModel.Model.Eam
+import AtsimModel.Gen.Logic
+import AtsimModel.Lemmas.TokSem
 /-!
 # C12 — tabulation is deterministic; evaluation is pure
 
@@ -63,5 +66,565 @@ def cached {α : Type} (c : Option α) (build : Unit → α) : α × Option α :
 theorem C12_cache_idempotent {α : Type} (build : Unit → α) :
     (cached none build).1 = build () ∧ (cached (cached none build).2 build).1 = build () := by
   simp [cached]
+
+/-! ## The code itself: the potable EAM builder (`EAM_Potential_Builder._init_eampotentials` and the eleven methods it uses)
+
+`Atsim.Gen.Logic.eam_init_potentials` and `eam_embed_species`, `eam_to_dict`, `eam_add_null_embed`, `eam_add_null_dens`, `eam_create_potential`, `eam_get_*` … are the
+methods of `config/_eam_potential_builder.py` as regenerated on every run: sets are lists of distinct members with `^`, `-`, `|` as list operations, dictionaries
+keep the position of a key that is assigned again, `sorted(...)` is the stable insertion sort, and - the point of this property - the ONE place where the code
+iterates over a Python `set` (`for s in all_species` in `_add_null_density_functions`) runs over `setOrder all_species`, an ORDER HANDED IN.  The theorem holds for
+every `setOrder` that returns a permutation: whatever order the hash seed produces, the elements built, their order and their functions are the model's `eamBuild`
+(embedding species in file order, then the density-only species in sorted order, zero functions where nothing was declared, the last declaration of a species winning). -/
+namespace BuilderTie
+open Atsim.Gen.Logic Atsim.TokSem
+
+/-- rows of `[EAM-Embed]` / `[EAM-Density]` as (species, function id) pairs, the form builder being `mkFn` -/
+def rowsOf (mkFn : Pfi → FnRec) (rows : List EmbRow) : List (Sp × Fid) := rows.map fun r => (r.species, (mkFn r.pfi).fid)
+
+/-- the reference data as the model's `spMeta`: atomic number and mass are required, lattice constant and type default to 0 and fcc -/
+def metaOf (refMass : String → Option Rat) (refNumber : String → Option Int) (refLatticeConstant : String → Option Rat) (refLatticeType : String → Option String)
+    (s : Sp) : Option (Int × Rat × Rat × String) :=
+  match refNumber s, refMass s with
+  | some z, some m => some (z, m, (refLatticeConstant s).getD 0, (refLatticeType s).getD "fcc")
+  | _, _ => none
+
+end BuilderTie
+
+/-! ### helper lemmas for the code tie -/
+namespace BuilderTie
+open Atsim.Gen.Logic Atsim.TokSem
+
+section dict
+variable {β : Type}
+
+theorem lookupLast_append_single (d : List (String × β)) (k : String) (v : β) (s : String) :
+    lookupLast (d ++ [(k, v)]) s = if s = k then some v else lookupLast d s := by
+  simp only [lookupLast, List.reverse_append, List.reverse_cons, List.reverse_nil, List.nil_append, List.singleton_append, List.find?_cons]
+  by_cases h : s = k
+  · subst h; simp
+  · have : (k == s) = false := by simp [Ne.symm h]
+    simp [this, h]
+
+theorem lookupLast_eq_none (d : List (String × β)) (s : String) :
+    lookupLast d s = none ↔ s ∉ d.map (·.1) := by
+  simp only [lookupLast, Option.map_eq_none_iff, List.find?_eq_none, List.mem_reverse, List.mem_map, not_exists, not_and]
+  constructor
+  · intro h e he heq
+    exact h e he (by simp [heq])
+  · intro h e he heq
+    exact h e he (by simpa using heq)
+
+theorem find_map_set (k : String) (v : β) (s : String) (l : List (String × β)) :
+    ((l.map (fun e => if e.1 == k then (k, v) else e)).find? (fun e => e.1 == s)).map (·.2)
+      = if s = k then (l.find? (fun e => e.1 == s)).map (fun _ => v) else (l.find? (fun e => e.1 == s)).map (·.2) := by
+  induction l with
+  | nil => simp
+  | cons e l ih =>
+    simp only [List.map_cons, List.find?_cons]
+    by_cases h1 : e.1 = k <;> by_cases h2 : s = k
+    · subst h2; simp [h1]
+    · have : (k == s) = false := by simp [Ne.symm h2]
+      have h3 : (e.1 == s) = false := by simp [h1, Ne.symm h2]
+      simpa [h1, this, h3, h2] using ih
+    · subst h2
+      have h3 : (e.1 == s) = false := by simp [h1]
+      simpa [h3] using ih
+    · have h3 : (e.1 == k) = false := by simp [h1]
+      simp only [h3, Bool.false_eq_true, if_false]
+      cases h4 : (e.1 == s)
+      · simpa [h2] using ih
+      · simp [h2]
+
+theorem lookupLast_odictSet (d : List (String × β)) (k : String) (v : β) (s : String) :
+    lookupLast (odictSet d k v) s = if s = k then some v else lookupLast d s := by
+  unfold odictSet
+  split
+  · rename_i hany
+    simp only [lookupLast, ← List.map_reverse, find_map_set]
+    split
+    · rename_i hs
+      subst hs
+      have : ∃ e, d.reverse.find? (fun e => e.1 == s) = some e := by
+        rw [← Option.isSome_iff_exists, List.find?_isSome]
+        simpa using hany
+      obtain ⟨e, he⟩ := this
+      simp [he]
+    · rfl
+  · exact lookupLast_append_single d k v s
+
+theorem keys_odictSet (d : List (String × β)) (k : String) (v : β) :
+    (odictSet d k v).map (·.1) = if (d.map (·.1)).contains k then d.map (·.1) else d.map (·.1) ++ [k] := by
+  unfold odictSet
+  have : d.any (fun e => e.1 == k) = (d.map (·.1)).contains k := by
+    induction d with
+    | nil => rfl
+    | cons e d ih => simp only [List.any_cons, ih, List.map_cons, List.contains_cons]; rw [Bool.beq_comm]
+  rw [this]
+  split
+  · rw [List.map_map]
+    apply List.map_congr_left
+    intro e _
+    by_cases h : e.1 = k <;> simp [h]
+  · simp
+
+theorem lookupLast_odictSetDefault (d : List (String × β)) (k : String) (v : β) (s : String) :
+    lookupLast (odictSetDefault d k v) s = match lookupLast d s with | some w => some w | none => if s = k then some v else none := by
+  unfold odictSetDefault
+  split
+  · rename_i hany
+    cases h : lookupLast d s with
+    | some w => rfl
+    | none =>
+      have := (lookupLast_eq_none d s).1 h
+      have hk : s ≠ k := by
+        rintro rfl
+        apply this
+        simp at hany ⊢
+        exact hany
+      simp [hk]
+  · rw [lookupLast_append_single]
+    rename_i hany
+    by_cases hk : s = k
+    · subst hk
+      have : lookupLast d s = none := by
+        rw [lookupLast_eq_none]; simpa using hany
+      simp [this]
+    · simp only [hk, if_false]
+      cases lookupLast d s <;> rfl
+
+end dict
+
+theorem to_dict_loop_eq (mkFn : Pfi → FnRec) (d : List (String × FnRec)) (u : Unit) (tl rows : List EmbRow) :
+    eam_to_dict_loop1 mkFn d u tl rows = rows.foldl (fun d r => odictSet d r.species (mkFn r.pfi)) d := by
+  induction rows generalizing d with
+  | nil => rfl
+  | cons r rows ih => simp only [eam_to_dict_loop1, List.foldl_cons]; exact ih _
+
+theorem eraseDupsSp_append_single (l : List Sp) (x : Sp) :
+    eraseDupsSp (l ++ [x]) = if (eraseDupsSp l).contains x then eraseDupsSp l else eraseDupsSp l ++ [x] := by
+  unfold eraseDupsSp
+  rw [List.foldl_append]
+  rfl
+
+theorem mem_eraseDupsSp (l : List Sp) (x : Sp) : x ∈ eraseDupsSp l ↔ x ∈ l := by
+  induction l using List.reverseRecOn generalizing x with
+  | nil => simp [eraseDupsSp]
+  | append_singleton l y ih =>
+    rw [eraseDupsSp_append_single]
+    split
+    · rename_i h
+      have hy : y ∈ l := by simpa [ih] using h
+      by_cases hxy : x = y
+      · subst hxy; simp [ih, hy]
+      · simp [ih, hxy]
+    · simp [ih]
+
+theorem nodup_eraseDupsSp (l : List Sp) : (eraseDupsSp l).Nodup := by
+  induction l using List.reverseRecOn with
+  | nil => simp [eraseDupsSp]
+  | append_singleton l y ih =>
+    rw [eraseDupsSp_append_single]
+    split
+    · exact ih
+    · rename_i h
+      rw [List.nodup_append]
+      refine ⟨ih, by simp, ?_⟩
+      intro a ha b hb
+      simp at hb
+      subst hb
+      rintro rfl
+      exact h (by simpa using ha)
+
+theorem to_dict_keys (mkFn : Pfi → FnRec) (rows : List EmbRow) :
+    (eam_to_dict mkFn rows ()).map (·.1) = eraseDupsSp (rows.map (·.species)) := by
+  unfold eam_to_dict
+  rw [to_dict_loop_eq]
+  induction rows using List.reverseRecOn with
+  | nil => rfl
+  | append_singleton rows r ih =>
+    rw [List.foldl_append, List.foldl_cons, List.foldl_nil, keys_odictSet, ih, List.map_append, List.map_singleton,
+      eraseDupsSp_append_single]
+
+theorem dictGet_eq_lookupLast (d : List (Sp × Fid)) (s : Sp) : dictGet d s = lookupLast d s := by
+  unfold dictGet lookupLast
+  cases List.find? _ _ <;> rfl
+
+theorem to_dict_lookup (mkFn : Pfi → FnRec) (rows : List EmbRow) (s : String) :
+    lookupLast (eam_to_dict mkFn rows ()) s = (dictGet (rowsOf mkFn rows) s).map FnRec.mk := by
+  unfold eam_to_dict
+  rw [to_dict_loop_eq, dictGet_eq_lookupLast]
+  induction rows using List.reverseRecOn with
+  | nil => rfl
+  | append_singleton rows r ih =>
+    rw [List.foldl_append, List.foldl_cons, List.foldl_nil, lookupLast_odictSet, ih]
+    simp only [rowsOf, List.map_append, List.map_singleton]
+    rw [lookupLast_append_single]
+    split <;> simp
+
+theorem rowsOf_keys (mkFn : Pfi → FnRec) (rows : List EmbRow) : (rowsOf mkFn rows).map (·.1) = rows.map (·.species) := by
+  simp [rowsOf]
+
+theorem mem_listToSet (l : List String) (x : String) : x ∈ listToSet l ↔ x ∈ l := by
+  induction l with
+  | nil => simp [listToSet]
+  | cons y l ih =>
+    simp only [listToSet, List.mem_cons, List.mem_filter, ih]
+    by_cases h : x = y <;> simp [h]
+
+theorem nodup_listToSet (l : List String) : (listToSet l).Nodup := by
+  induction l with
+  | nil => simp [listToSet]
+  | cons y l ih =>
+    simp only [listToSet, List.nodup_cons, List.mem_filter]
+    exact ⟨by simp, ih.filter _⟩
+
+theorem mem_setDiff (a b : List String) (x : String) : x ∈ setDiff a b ↔ x ∈ a ∧ x ∉ b := by
+  simp [setDiff]
+
+theorem null_embed_loop_eq (cp : CpEam) (defined : List String) (density : List EmbRow) (dd : List (String × FnRec)) (ds : List String)
+    (E : List (String × FnRec)) (null : FnRec) (nes l : List String) :
+    eam_add_null_embed_loop1 cp defined density dd ds E null nes l = l.foldl (fun E s => odictSet E s null) E := by
+  induction l generalizing E with
+  | nil => rfl
+  | cons r rows ih => simp only [eam_add_null_embed_loop1, List.foldl_cons]; exact ih _
+
+theorem foldl_odictSet_lookup {β : Type} (n : β) (l : List String) (E : List (String × β)) (s : String) :
+    lookupLast (l.foldl (fun E s => odictSet E s n) E) s = if s ∈ l then some n else lookupLast E s := by
+  induction l generalizing E with
+  | nil => simp
+  | cons x l ih =>
+    rw [List.foldl_cons, ih, lookupLast_odictSet]
+    by_cases h1 : s ∈ l <;> by_cases h2 : s = x <;> simp [h1, h2]
+
+theorem foldl_odictSet_keys {β : Type} (n : β) (l : List String) (E : List (String × β)) (hnd : l.Nodup)
+    (hdis : ∀ s ∈ l, s ∉ E.map (·.1)) :
+    (l.foldl (fun E s => odictSet E s n) E).map (·.1) = E.map (·.1) ++ l := by
+  induction l generalizing E with
+  | nil => simp
+  | cons x l ih =>
+    rw [List.foldl_cons, ih _ (List.nodup_cons.1 hnd).2]
+    · rw [keys_odictSet]
+      have : ¬ ((E.map (·.1)).contains x) = true := by
+        simpa using hdis x (by simp)
+      rw [if_neg this]
+      simp
+    · intro s hs
+      rw [keys_odictSet]
+      have hx : s ≠ x := by rintro rfl; exact (List.nodup_cons.1 hnd).1 hs
+      have := hdis s (by simp [hs])
+      split
+      · exact this
+      · simp only [List.mem_append, List.mem_singleton, not_or]
+        exact ⟨this, hx⟩
+
+theorem leS_total' (a b : String) : (decide (a ≤ b)) = true ∨ (decide (b ≤ a)) = true := by
+  simpa using le_total a b
+
+theorem null_species_eq (densSp K : List String) :
+    stableSortBy (fun a b => decide (a ≤ b)) (setDiff (listToSet densSp) K)
+      = (sortSp (eraseDupsSp densSp)).filter (fun s => densSp.contains s && !K.contains s) := by
+  apply Atsim.C05.TabeamWriter.stableSortBy_eq (fun a b : String => decide (a ≤ b))
+  · intro a b; simpa using le_total a b
+  · intro a b c; simpa using fun h1 h2 => le_trans h1 h2
+  · intro a b; simpa using fun h1 h2 => le_antisymm h1 h2
+  · rw [List.perm_ext_iff_of_nodup]
+    · intro a
+      rw [mem_setDiff, mem_listToSet, List.mem_filter, (C05.TabeamWriter.sortSp_perm _).mem_iff, mem_eraseDupsSp]
+      simp
+    · exact (nodup_listToSet _).filter _
+    · exact (((C05.TabeamWriter.sortSp_perm _).nodup_iff).2 (nodup_eraseDupsSp _)).filter _
+  · have := (C05.TabeamWriter.sortSp_sorted (eraseDupsSp densSp)).filter (fun s => densSp.contains s && !K.contains s)
+    exact this.imp (by intro a b h; simpa using h)
+
+
+/-- the zero-filled species of the model, for embedding keys `K` -/
+def extrasOf (densSp K : List String) : List String :=
+  (sortSp (eraseDupsSp densSp)).filter (fun s => densSp.contains s && !K.contains s)
+
+theorem add_null_embed_keys (cp : CpEam) (E dd : List (String × FnRec)) :
+    (eam_add_null_embed cp E dd).map (·.1) = E.map (·.1) ++ extrasOf (cp.eam_density.map (·.species)) (E.map (·.1)) := by
+  unfold eam_add_null_embed eam_extract_density eam_density_species
+  simp only []
+  rw [null_embed_loop_eq, null_species_eq, foldl_odictSet_keys]
+  · rfl
+  · exact (((C05.TabeamWriter.sortSp_perm _).nodup_iff).2 (nodup_eraseDupsSp _)).filter _
+  · intro s hs
+    have := (List.mem_filter.1 hs).2
+    simp only [Bool.and_eq_true, Bool.not_eq_true'] at this
+    simpa using this.2
+
+theorem add_null_embed_lookup (cp : CpEam) (E dd : List (String × FnRec)) (s : String) :
+    lookupLast (eam_add_null_embed cp E dd) s
+      = if s ∈ extrasOf (cp.eam_density.map (·.species)) (E.map (·.1)) then some zeroFn else lookupLast E s := by
+  unfold eam_add_null_embed eam_extract_density eam_density_species
+  simp only []
+  rw [null_embed_loop_eq, null_species_eq, foldl_odictSet_lookup]
+  rfl
+
+theorem null_dens_loop_eq (setOrder : List String → List String) (all : List String) (cp : CpEam) (density : List EmbRow)
+    (D : List (String × FnRec)) (ds : List String) (E : List (String × FnRec)) (es : List String) (null : FnRec) (l : List String) :
+    eam_add_null_dens_loop1 setOrder all cp density D ds E es null l = l.foldl (fun D s => odictSetDefault D s null) D := by
+  induction l generalizing D with
+  | nil => rfl
+  | cons r rows ih => simp only [eam_add_null_dens_loop1, List.foldl_cons]; exact ih _
+
+theorem foldl_setDefault_lookup {β : Type} (n : β) (l : List String) (D : List (String × β)) (s : String) :
+    lookupLast (l.foldl (fun D s => odictSetDefault D s n) D) s
+      = match lookupLast D s with | some w => some w | none => if s ∈ l then some n else none := by
+  induction l generalizing D with
+  | nil => cases h : lookupLast D s <;> simp [h]
+  | cons x l ih =>
+    rw [List.foldl_cons, ih, lookupLast_odictSetDefault]
+    cases lookupLast D s with
+    | some w => rfl
+    | none =>
+      by_cases h2 : s = x
+      · simp [h2]
+      · simp [h2]
+
+theorem add_null_dens_lookup (setOrder : List String → List String) (hperm : ∀ l, (setOrder l).Perm l) (cp : CpEam)
+    (E D : List (String × FnRec)) (s : String) (hs : s ∈ E.map (·.1)) :
+    lookupLast (eam_add_null_dens setOrder cp E D) s = some ((lookupLast D s).getD zeroFn) := by
+  unfold eam_add_null_dens
+  simp only []
+  rw [null_dens_loop_eq, foldl_setDefault_lookup]
+  have : s ∈ setOrder (setUnion (E.map fun e => e.1) (eam_density_species (eam_extract_density cp))) := by
+    rw [(hperm _).mem_iff]
+    unfold setUnion
+    exact List.mem_append_left _ hs
+  cases lookupLast D s with
+  | some w => rfl
+  | none => simp [this]
+
+/-- the model's per-species constructor -/
+def mkEl (embed dens : List (Sp × Fid)) (spMeta : Sp → Option (Int × Rat × Rat × String)) (s : Sp) : Option El :=
+  match spMeta s with
+  | none => none
+  | some (z, m, a, l) =>
+    some { sp := s, z := z, mass := m, a0 := a, lat := l, embed := (dictGet embed s).getD 0,
+           dens := (dictGet dens s).getD 0, densTo := [] }
+
+theorem eamBuild_eq (embed dens : List (Sp × Fid)) (spMeta : Sp → Option (Int × Rat × Rat × String)) :
+    eamBuild embed dens spMeta
+      = (eraseDupsSp (embed.map (·.1)) ++ extrasOf (dens.map (·.1)) (eraseDupsSp (embed.map (·.1)))).mapM (mkEl embed dens spMeta) := rfl
+
+/-- what the per-species call has to deliver -/
+def CreateOk (r : Except BuildErr EamRec) (m : Option El) : Prop :=
+  match m with
+  | some el => r = .ok (toEam el)
+  | none => ∃ e, r = .error e ∧ (e = BuildErr.noAtomicNumber ∨ e = BuildErr.noMass)
+
+theorem create_spec (refMass : String → Option Rat) (refNumber : String → Option Int) (refLatticeConstant : String → Option Rat)
+    (refLatticeType : String → Option String) (embed dens : List (Sp × Fid)) (s : String) (E' D' : List (String × FnRec))
+    (hE : lookupLast E' s = some ⟨(dictGet embed s).getD 0⟩) (hD : lookupLast D' s = some ⟨(dictGet dens s).getD 0⟩) :
+    CreateOk (eam_create_potential refMass refNumber refLatticeConstant refLatticeType s E' D')
+      (mkEl embed dens (metaOf refMass refNumber refLatticeConstant refLatticeType) s) := by
+  unfold eam_create_potential mkEl metaOf eam_get_atomic_number eam_get_mass eam_get_lattice_constant eam_get_lattice_type
+  rw [hE, hD]
+  cases refNumber s with
+  | none => simp [CreateOk, andThen]
+  | some z =>
+    cases refMass s with
+    | none => simp [CreateOk, andThen]
+    | some m =>
+      cases refLatticeConstant s <;> cases refLatticeType s <;> simp [CreateOk, andThen, toEam]
+
+
+/-- what the final loop has to deliver -/
+def LoopOk (acc : List EamRec) (r : Except BuildErr (List EamRec)) (m : Option (List El)) : Prop :=
+  match m with
+  | some els => r = .ok (acc ++ els.map toEam)
+  | none => ∃ e, r = .error e ∧ (e = BuildErr.noAtomicNumber ∨ e = BuildErr.noMass)
+
+theorem loop1_spec (mkFn : Pfi → FnRec) (setOrder : List String → List String)
+    (refMass : String → Option Rat) (refNumber : String → Option Int) (refLatticeConstant : String → Option Rat)
+    (refLatticeType : String → Option String) (cp : CpEam) (density : List EmbRow) (D' : List (String × FnRec)) (ds diff : List String)
+    (embed : List EmbRow) (E' : List (String × FnRec)) (es : List String) (b : Bool) (g : String → Option El) (l : List String)
+    (h : ∀ s ∈ l, CreateOk (eam_create_potential refMass refNumber refLatticeConstant refLatticeType s E' D') (g s))
+    (acc : List EamRec) :
+    LoopOk acc (eam_init_potentials_loop1 mkFn setOrder refMass refNumber refLatticeConstant refLatticeType cp density D' ds diff embed E' es
+      () () () acc b l) (l.mapM g) := by
+  induction l generalizing acc with
+  | nil => simp [eam_init_potentials_loop1, LoopOk]
+  | cons x l ih =>
+    have hx := h x (by simp)
+    have ih' := fun acc => ih (fun s hs => h s (by simp [hs])) acc
+    unfold eam_init_potentials_loop1
+    rw [List.mapM_cons]
+    cases hg : g x with
+    | none =>
+      rw [hg] at hx
+      obtain ⟨e, he, hee⟩ := hx
+      rw [he]
+      exact ⟨e, rfl, hee⟩
+    | some el =>
+      rw [hg] at hx
+      simp only [CreateOk] at hx
+      rw [hx]
+      simp only [andThen]
+      have := ih' (acc ++ [toEam el])
+      cases hm : l.mapM g with
+      | none =>
+        rw [hm] at this
+        exact this
+      | some els =>
+        rw [hm] at this
+        simp only [LoopOk] at this ⊢
+        rw [this]
+        simp
+
+theorem loop3_eq_loop1 (mkFn : Pfi → FnRec) (setOrder : List String → List String)
+    (refMass : String → Option Rat) (refNumber : String → Option Int) (refLatticeConstant : String → Option Rat)
+    (refLatticeType : String → Option String) (cp : CpEam) (density : List EmbRow) (D' : List (String × FnRec)) (ds diff : List String)
+    (embed : List EmbRow) (E' : List (String × FnRec)) (es : List String) (b : Bool) (l : List String) (acc : List EamRec) :
+    eam_init_potentials_loop3 mkFn setOrder refMass refNumber refLatticeConstant refLatticeType cp density D' ds diff embed E' es () () () acc b l
+      = eam_init_potentials_loop1 mkFn setOrder refMass refNumber refLatticeConstant refLatticeType cp density D' ds diff embed E' es () () () acc b l := by
+  induction l generalizing acc with
+  | nil => rfl
+  | cons x l ih =>
+    unfold eam_init_potentials_loop3 eam_init_potentials_loop1
+    simp only [ih]
+
+
+theorem builder_core (mkFn : Pfi → FnRec) (setOrder : List String → List String) (hperm : ∀ l, (setOrder l).Perm l)
+    (refMass : String → Option Rat) (refNumber : String → Option Int) (refLatticeConstant : String → Option Rat)
+    (refLatticeType : String → Option String) (cp : CpEam) (density embed : List EmbRow) (ds diff es : List String) (b : Bool) :
+    LoopOk [] (eam_init_potentials_loop1 mkFn setOrder refMass refNumber refLatticeConstant refLatticeType cp density
+        (eam_add_null_dens setOrder cp (eam_add_null_embed cp (eam_to_dict mkFn cp.eam_embed ()) (eam_to_dict mkFn cp.eam_density ()))
+          (eam_to_dict mkFn cp.eam_density ()))
+        ds diff embed (eam_add_null_embed cp (eam_to_dict mkFn cp.eam_embed ()) (eam_to_dict mkFn cp.eam_density ())) es () () () [] b
+        ((eam_add_null_embed cp (eam_to_dict mkFn cp.eam_embed ()) (eam_to_dict mkFn cp.eam_density ())).map (·.1)))
+      (eamBuild (rowsOf mkFn cp.eam_embed) (rowsOf mkFn cp.eam_density) (metaOf refMass refNumber refLatticeConstant refLatticeType)) := by
+  rw [eamBuild_eq, rowsOf_keys, rowsOf_keys]
+  have hkeys : (eam_add_null_embed cp (eam_to_dict mkFn cp.eam_embed ()) (eam_to_dict mkFn cp.eam_density ())).map (·.1)
+      = eraseDupsSp (cp.eam_embed.map (·.species))
+          ++ extrasOf (cp.eam_density.map (·.species)) (eraseDupsSp (cp.eam_embed.map (·.species))) := by
+    rw [add_null_embed_keys, to_dict_keys]
+  have hkeys' := hkeys
+  rw [hkeys]
+  apply loop1_spec
+  intro s hs
+  apply create_spec
+  · rw [add_null_embed_lookup, to_dict_keys, to_dict_lookup]
+    split
+    · rename_i hex
+      have hnot : s ∉ cp.eam_embed.map (·.species) := by
+        have := (List.mem_filter.1 hex).2
+        simp only [Bool.and_eq_true, Bool.not_eq_true'] at this
+        have h2 : s ∉ eraseDupsSp (cp.eam_embed.map (·.species)) := by simpa using this.2
+        rwa [mem_eraseDupsSp] at h2
+      have : dictGet (rowsOf mkFn cp.eam_embed) s = none := by
+        rw [dictGet_eq_lookupLast, lookupLast_eq_none, rowsOf_keys]
+        exact hnot
+      rw [this]
+      rfl
+    · rename_i hex
+      have hin : s ∈ cp.eam_embed.map (·.species) := by
+        rcases List.mem_append.1 hs with h | h
+        · rwa [mem_eraseDupsSp] at h
+        · exact absurd h hex
+      cases hd : dictGet (rowsOf mkFn cp.eam_embed) s with
+      | none =>
+        rw [dictGet_eq_lookupLast, lookupLast_eq_none, rowsOf_keys] at hd
+        exact absurd hin hd
+      | some f => rfl
+  · rw [add_null_dens_lookup setOrder hperm cp _ _ s (by rw [hkeys']; exact hs), to_dict_lookup]
+    cases dictGet (rowsOf mkFn cp.eam_density) s <;> rfl
+
+
+theorem init_eq_loop1 (mkFn : Pfi → FnRec) (setOrder : List String → List String)
+    (refMass : String → Option Rat) (refNumber : String → Option Int) (refLatticeConstant : String → Option Rat)
+    (refLatticeType : String → Option String) (cp : CpEam) :
+    eam_init_potentials mkFn setOrder refMass refNumber refLatticeConstant refLatticeType true cp () ()
+      = eam_init_potentials_loop1 mkFn setOrder refMass refNumber refLatticeConstant refLatticeType cp cp.eam_density
+        (eam_add_null_dens setOrder cp (eam_add_null_embed cp (eam_to_dict mkFn cp.eam_embed ()) (eam_to_dict mkFn cp.eam_density ()))
+          (eam_to_dict mkFn cp.eam_density ()))
+        (eam_density_species cp.eam_density) (setSymDiff (eam_embed_species cp.eam_embed) (eam_density_species cp.eam_density)) cp.eam_embed
+        (eam_add_null_embed cp (eam_to_dict mkFn cp.eam_embed ()) (eam_to_dict mkFn cp.eam_density ())) (eam_embed_species cp.eam_embed) () () () [] true
+        ((eam_add_null_embed cp (eam_to_dict mkFn cp.eam_embed ()) (eam_to_dict mkFn cp.eam_density ())).map (·.1)) := by
+  unfold eam_init_potentials eam_extract_embed eam_extract_density eam_embed_to_dict eam_density_to_dict
+  simp only [if_true]
+  split
+  · rfl
+  · exact loop3_eq_loop1 ..
+
+theorem create_congr (refMass : String → Option Rat) (refNumber : String → Option Int) (refLatticeConstant : String → Option Rat)
+    (refLatticeType : String → Option String) (s : String) (E' D1 D2 : List (String × FnRec)) (h : lookupLast D1 s = lookupLast D2 s) :
+    eam_create_potential refMass refNumber refLatticeConstant refLatticeType s E' D1
+      = eam_create_potential refMass refNumber refLatticeConstant refLatticeType s E' D2 := by
+  unfold eam_create_potential
+  rw [h]
+
+theorem loop1_congr (mkFn : Pfi → FnRec) (o o' : List String → List String)
+    (refMass : String → Option Rat) (refNumber : String → Option Int) (refLatticeConstant : String → Option Rat)
+    (refLatticeType : String → Option String) (cp : CpEam) (density : List EmbRow) (D1 D2 : List (String × FnRec)) (ds diff : List String)
+    (embed : List EmbRow) (E' : List (String × FnRec)) (es : List String) (b : Bool) (l : List String)
+    (h : ∀ s ∈ l, lookupLast D1 s = lookupLast D2 s) (acc : List EamRec) :
+    eam_init_potentials_loop1 mkFn o refMass refNumber refLatticeConstant refLatticeType cp density D1 ds diff embed E' es () () () acc b l
+      = eam_init_potentials_loop1 mkFn o' refMass refNumber refLatticeConstant refLatticeType cp density D2 ds diff embed E' es () () () acc b l := by
+  induction l generalizing acc with
+  | nil => rfl
+  | cons x l ih =>
+    unfold eam_init_potentials_loop1
+    rw [create_congr refMass refNumber refLatticeConstant refLatticeType x E' D1 D2 (h x (by simp))]
+    have ih' := fun acc => ih (fun s hs => h s (by simp [hs])) acc
+    simp only [ih']
+
+theorem symDiff_nonempty (A B : List String) (s : String) (hs : (s ∈ A) ≠ (s ∈ B)) :
+    (setSymDiff (listToSet A) (listToSet B)).isEmpty = false := by
+  have hmem : s ∈ setSymDiff (listToSet A) (listToSet B) := by
+    unfold setSymDiff
+    rw [List.mem_append, mem_setDiff, mem_setDiff, mem_listToSet, mem_listToSet]
+    by_cases hA : s ∈ A <;> by_cases hB : s ∈ B
+    · exact absurd (propext (iff_of_true hA hB)) hs
+    · exact Or.inl ⟨hA, hB⟩
+    · exact Or.inr ⟨hB, hA⟩
+    · exact absurd (propext (iff_of_false hA hB)) hs
+  cases h : setSymDiff (listToSet A) (listToSet B) with
+  | nil => rw [h] at hmem; simp at hmem
+  | cons a t => rfl
+
+end BuilderTie
+
+open Atsim.Gen.Logic Atsim.TokSem BuilderTie in
+/-- **code tie (zero-filling builder, any set iteration order)** -/
+theorem C12_code_eam_builder (mkFn : Pfi → FnRec) (setOrder : List String → List String) (hperm : ∀ l, (setOrder l).Perm l)
+    (refMass : String → Option Rat) (refNumber : String → Option Int) (refLatticeConstant : String → Option Rat) (refLatticeType : String → Option String)
+    (cp : CpEam) :
+    match eamBuild (rowsOf mkFn cp.eam_embed) (rowsOf mkFn cp.eam_density) (metaOf refMass refNumber refLatticeConstant refLatticeType) with
+    | some els => eam_init_potentials mkFn setOrder refMass refNumber refLatticeConstant refLatticeType true cp () () = .ok (els.map toEam)
+    | none => ∃ e, eam_init_potentials mkFn setOrder refMass refNumber refLatticeConstant refLatticeType true cp () () = .error e ∧
+                   (e = BuildErr.noAtomicNumber ∨ e = BuildErr.noMass) := by
+  rw [init_eq_loop1]
+  have := builder_core mkFn setOrder hperm refMass refNumber refLatticeConstant refLatticeType cp cp.eam_density cp.eam_embed
+    (eam_density_species cp.eam_density) (setSymDiff (eam_embed_species cp.eam_embed) (eam_density_species cp.eam_density))
+    (eam_embed_species cp.eam_embed) true
+  revert this
+  cases eamBuild (rowsOf mkFn cp.eam_embed) (rowsOf mkFn cp.eam_density) (metaOf refMass refNumber refLatticeConstant refLatticeType) with
+  | none => exact id
+  | some els => intro h; simpa [LoopOk] using h
+
+open Atsim.Gen.Logic Atsim.TokSem BuilderTie in
+/-- hence the result does not depend on the iteration order of the set at all -/
+theorem C12_code_eam_builder_order_free (mkFn : Pfi → FnRec) (o o' : List String → List String) (ho : ∀ l, (o l).Perm l) (ho' : ∀ l, (o' l).Perm l)
+    (refMass : String → Option Rat) (refNumber : String → Option Int) (refLatticeConstant : String → Option Rat) (refLatticeType : String → Option String)
+    (cp : CpEam) :
+    eam_init_potentials mkFn o refMass refNumber refLatticeConstant refLatticeType true cp () () =
+      eam_init_potentials mkFn o' refMass refNumber refLatticeConstant refLatticeType true cp () () := by
+  rw [init_eq_loop1, init_eq_loop1]
+  apply loop1_congr
+  intro s hs
+  rw [add_null_dens_lookup o ho cp _ _ s hs, add_null_dens_lookup o' ho' cp _ _ s hs]
+
+open Atsim.Gen.Logic BuilderTie in
+/-- without zero-filling (`add_undefined = False`) species present on one side only are refused -/
+theorem C12_code_eam_builder_strict (mkFn : Pfi → FnRec) (setOrder : List String → List String)
+    (refMass : String → Option Rat) (refNumber : String → Option Int) (refLatticeConstant : String → Option Rat) (refLatticeType : String → Option String)
+    (cp : CpEam) (s : String) (hs : (s ∈ cp.eam_embed.map (·.species)) ≠ (s ∈ cp.eam_density.map (·.species))) :
+    eam_init_potentials mkFn setOrder refMass refNumber refLatticeConstant refLatticeType false cp () () = .error BuildErr.speciesMismatch := by
+  have := symDiff_nonempty _ _ s hs
+  unfold eam_init_potentials eam_extract_embed eam_extract_density eam_embed_species eam_density_species
+  simp only [this, Bool.not_false, if_true, Bool.false_eq_true, if_false]
+
 
 end Atsim.C12
